@@ -475,6 +475,63 @@ def c08_timeseries_roundtrip(how):
     return body
 
 
+def c08_result_copy(how, name="M10", T=3):
+    """A finished run reports the same numbers before and after it is copied / pickled, and so does the copy"""
+
+    def body(env):
+        am, ap, au, apar, afp = mr.modules()
+        import atomica.results as ares
+
+        P = project(name, T, 0.25)
+        s1, s2 = _session(env)
+        with s1, s2, env.installed(shim.patches_for(ares)):
+            parset = copy.deepcopy(P.parsets[0])
+            mr.symbolize_parset(env, parset, P.framework, comps=False)
+            m0 = am.Model(P.settings, P.framework, P.parsets[0])
+            parset.initialization = mr.symbolic_state(env, m0)
+            m = mr.build_model(env, P.settings, P.framework, parset)
+            from checks.modelstep import Hooks
+
+            def post_comps(model):
+                # the stocks of each step become fresh non-negative variables: what is compared below are the reported arrays
+                # before and after copying, not their dependence on the inputs
+                if not env.cutting:
+                    return
+                ti = model._t_index
+                for pop in model.pops:
+                    for c in pop.comps:
+                        if not isinstance(c, (am.SourceCompartment, am.JunctionCompartment, am.TimedCompartment)):
+                            c.vals[ti] = env.cut(c.vals[ti], "x%d|%s|%s" % (ti, c.name, pop.name), [lambda v: env.ge(v, 0.0, 0)])
+
+            with Hooks(am, post=dict(update_comps=post_comps)):
+                m.process()
+            res = ares.Result(model=m, parset=parset, name="r")
+
+            def outputs(r):
+                out = {}
+                for pop in r.model.pops:
+                    for var in pop.comps + pop.characs + pop.pars + pop.links:
+                        nm = var.name if not isinstance(var, am.Link) else "%s>%s" % (var.source.name, var.dest.name)
+                        vals = var.vals
+                        out[(pop.name, type(var).__name__, nm)] = None if vals is None else list(vals)
+                return out
+
+            before = outputs(res)
+            new = copy.deepcopy(res) if how == "deepcopy" else pickle.loads(pickle.dumps(res))
+            after = outputs(res)
+            copied = outputs(new)
+        for label, got in (("original_after_%s" % how, after), ("%s_of_result" % how, copied)):
+            env.claim("%s|same_variables" % label, env.true(set(got) == set(before)), key="result_copy_structure")
+            for k, a in before.items():
+                b = got.get(k)
+                if a is None or b is None:
+                    env.claim("%s|%s|%s|%s" % ((label,) + k), env.true(a is None and b is None), key="result_copy[%s]" % k[1])
+                    continue
+                env.claim("%s|%s|%s|%s" % ((label,) + k), env.all([env.same(x, y) for x, y in zip(a, b)]) & env.true(len(a) == len(b)), key="result_copy[%s]" % k[1])
+
+    return body
+
+
 def c08_leak(units_a, units_b, T=3):
     """A model built and run, then a *different* model (other transfer units) built and run in the same process, then the first one
     built again from the same inputs: the two builds of the first model run identically, and the transfer parameter holds the
@@ -629,6 +686,8 @@ def specs(prop, tier):
         out.append(("copy[M1;rebuild;partial initialization]", c08_copy, dict(name="M1", how="rebuild", with_programs=False, partial_init=True)))
         out.append(("interleave[deepcopy]", c08_interleave, dict(how="deepcopy")))
         out.append(("interleave[pickle]", c08_interleave, dict(how="pickle")))
+        for how in ("deepcopy", "pickle"):
+            out.append(("result_copy[M10;%s]" % how, c08_result_copy, dict(how=how)))
         for how in ("deepcopy", "pickle", "copy"):
             out.append(("timeseries_roundtrip[%s]" % how, c08_timeseries_roundtrip, dict(how=how)))
         out.append(("other_model_in_between[probability transfer;duration transfer]", c08_leak, dict(units_a="probability", units_b="duration")))
